@@ -101,6 +101,13 @@ let run_leaf toks =
   | ["checkedAdd"; x; y] -> pr (checkedAdd (z x) (z y))
   | ["checkedSub"; x; y] -> pr (checkedSub (z x) (z y))
   | ["inBetween"; a; x; b] -> pr (inBetween (z a) (z x) (z b))
+  | ["align"; stop; n] -> pr (align (z stop) (z n))
+  | ["tdist"; md; th; a; b] ->
+    let md' = if Z.equal (z md) Z.zero then z "10000000" else z md in
+    pr (getThreadDistance md' (z th) (z a) (z b))
+  | ["ideal"; md; nt; a; b] ->
+    let thr = if Z.equal (z md) Z.zero then threshold (z "10000000") (z b) else z md in
+    pr (idealNumThreads thr (z nt) (z a) (z b))
   | ["is_prime"; x] -> if is_prime (z x) then "1" else "0"
   | ["mr"; x] -> if mr (z x) then "1" else "0"
   | _ -> "?"
@@ -119,6 +126,13 @@ let () =
       match String.split_on_char ' ' line with
       | "ITER" :: args -> let ls = read_block () in run_iter args ls; print_endline "END"
       | "LEAF" :: toks -> print_endline (run_leaf toks)
+      | ["PLAN"; a; b; nt; md] ->
+        (* hook distance md (0 = production constants): minDist = md, threshold = md *)
+        let md' = if Z.equal (z md) Z.zero then z "10000000" else z md in
+        let thr = if Z.equal (z md) Z.zero then threshold md' (z b) else z md in
+        (match plan md' thr (z nt) (z a) (z b) with
+         | None -> print_endline "single"
+         | Some ps -> print_endline ("pieces" ^ String.concat "" (List.map (fun (s, e) -> " " ^ pr s ^ " " ^ pr e) ps)))
       | _ -> print_endline "?"
     end
   done with End_of_file -> ());
